@@ -197,6 +197,8 @@ type c13Env struct {
 	// special recognises rule-specific atoms: the argument of len(…) / the
 	// operand of a nil comparison.
 	special func(e ast.Expr, at ast.Node) (c13Atom, bool)
+	// intAtom recognises rule-specific integer-valued calls (e.g. buf.length()).
+	intAtom func(call *ast.CallExpr, at ast.Node) (c13Atom, bool)
 }
 
 func newC13Env(fl *core.Flow) *c13Env {
@@ -571,10 +573,12 @@ func (env *c13Env) aff1(e ast.Expr, at ast.Node, depth int) (c13Aff, bool) {
 			return c13Aff{}, false
 		}
 		if d, isPlain := env.plain[v]; isPlain {
-			if !env.fresh(v, at) {
-				return c13Aff{}, false
+			if env.fresh(v, at) {
+				if a, ok := env.aff1(d.rhs, d.stmt, depth+1); ok {
+					return a, true
+				}
 			}
-			return env.aff1(d.rhs, d.stmt, depth+1)
+			return affA(c13Atom{kind: 'v', obj: v}), true // the variable itself
 		}
 		// a local that certainly holds the value of an integer receiver field
 		if !env.isParam(v) && env.recv != nil {
@@ -595,6 +599,11 @@ func (env *c13Env) aff1(e ast.Expr, at ast.Node, depth int) (c13Aff, bool) {
 		if id, ok := ast.Unparen(x.Fun).(*ast.Ident); ok && len(x.Args) == 1 {
 			if b, isB := env.info.Uses[id].(*types.Builtin); isB && b.Name() == "len" {
 				return env.lenOf(x.Args[0], at, depth+1)
+			}
+		}
+		if env.intAtom != nil {
+			if a, ok := env.intAtom(x, at); ok {
+				return affA(a), true
 			}
 		}
 	case *ast.BinaryExpr:
